@@ -3,7 +3,9 @@
 B1  no key, value, section, comment, line or option string flows into a fixed-size buffer
     (truncation or overflow); paths flow only into PATH_MAX-sized buffers through limited copiers.
 B2  exact-fit buffers (malloc/alloca sized by strlen terms) receive exactly the strings they
-    were sized for, plus separators and the terminator."""
+    were sized for, plus separators and the terminator.
+B3  heap copies whose size was computed before the string changed.   B4  no comparison of two user strings over a fixed number of bytes.   B5  no test of a text length against a constant.
+B6  no alloca()/strdupa() inside a loop driven by the file's content."""
 import json
 import os
 
@@ -74,9 +76,103 @@ def judge(prog, ctx, util, rule_prefix=""):
     return arrays, sites, fits
 
 
+def b4_bounded_compares(prog, ctx):
+    """B4: two pieces of user text are never compared over a FIXED number of bytes (strncmp(a, b, BUFSIZ) makes names that
+    agree in their first BUFSIZ bytes the same name - a length limit in disguise).  A length taken from one of the strings
+    (strlen, a local holding strlen) is a prefix/suffix test, not a limit."""
+    n = 0
+    for f in list(prog.lib_functions()) + list(prog.util_functions.values()):
+        for c in f.calls(("strncmp", "strncasecmp", "memcmp")):
+            a = c.call_args()
+            if len(a) < 3:
+                continue
+            n += 1
+            inst = "%s: %s" % (f.name, render(c)[:70])
+            if any(x.strip().string_value() is not None for x in a[:2]):
+                ctx.ok("B4", inst, c.where, "comparison with a literal")
+                continue
+            ln = a[2].strip()
+            cv = ln.const_value()
+            if cv is not None:
+                ctx.fail("B4", inst, c.where,
+                         "two strings are compared over at most %d bytes (%s): names, keys or values that agree in that many bytes count as equal" % (
+                             cv, render(ln)), key="bounded-compare:%s" % f.name)
+            else:
+                ctx.ok("B4", inst, c.where, "length `%s` depends on the strings compared" % render(ln))
+    ctx.counts["B4 bounded comparisons"] = n
+
+
+def b5_length_tests(prog, ctx):
+    """B5: no branch of the library compares the LENGTH of a user string with a constant (other than 0 / 1): such a test is a
+    length limit whatever it is meant for (skipping names of NAME_MAX bytes, refusing long keys ...).  Copies into fixed buffers
+    are B1's business; the tool's PATH_MAX tests on paths are outside (paths are only claimed up to the OS limits)."""
+    from sa.dataflow import ReachingDefs
+    n = 0
+    for f in prog.lib_functions():
+        cfg = f.cfg
+        rd = None
+        seen = set()
+        for (b, i, s2) in cfg.edges():
+            if i != 0:
+                continue
+            lit = cfg.edge_lit(b, i)
+            if lit is None or lit.kind not in ("lt", "eq"):
+                continue
+            for x, y in ((lit.lhs, lit.rhs), (lit.rhs, lit.lhs)):
+                cv = y.const_value()
+                if cv is None or cv < 2:
+                    continue
+                xs = x.strip()
+                is_len = xs.k == "CallExpr" and xs.j.get("callee") in ("strlen", "strnlen")
+                if not is_len and xs.k == "DeclRefExpr" and xs.j.get("dk") == "local":
+                    rd = rd or ReachingDefs(f)
+                    ds = [d for d in rd.defs if d.var == xs.j["name"] and d.kind in ("init", "assign") and d.rhs is not None]
+                    is_len = bool(ds) and all(d.rhs.strip().k == "CallExpr" and d.rhs.strip().j.get("callee") in ("strlen", "strnlen") for d in ds)
+                if not is_len or lit.node.id in seen:
+                    continue
+                seen.add(lit.node.id)
+                n += 1
+                ctx.fail("B5", "%s: no test of a text length against a constant" % f.name, lit.node.where,
+                         "`%s` is compared with %d (%s): text of that length is treated differently - a length limit" % (render(xs), cv, render(y)),
+                         key="length-test:%s:%s" % (f.name, render(xs)))
+    if n == 0:
+        ctx.ok("B5", "no test of a text length against a constant in lib/", "", "no branch compares strlen() of anything (or a local holding it) with a constant above 1")
+
+
+def b6_stack_copies(prog, ctx):
+    """B6: text whose amount the FILE decides (lines, entries) is never piled up on the stack: no alloca()/strdupa()/VLA inside a
+    loop that is driven by the file's content (alloca memory is released only when the function returns)."""
+    n = 0
+    bad = 0
+    for f in prog.lib_functions():
+        for c in f.calls(("alloca", "__builtin_alloca", "__builtin_alloca_with_align")):
+            drivers = [a for a in c.ancestors() if a.k in ("ForStmt", "WhileStmt", "DoStmt")]
+            if not drivers:
+                continue
+            n += 1
+            content = None
+            for lp in drivers:
+                ct = render(lp.child("cond")) if lp.child("cond") is not None else ""
+                if any(k in ct for k in ("getline", "getdelim", "fgets", "strsep", "strtok", "->length", ".length", "alloc_length", "group_count")):
+                    content = lp
+            inst = "%s: %s inside a loop" % (f.name, render(c)[:60])
+            if content is not None:
+                bad += 1
+                ctx.fail("B6", inst, c.where,
+                         "stack memory is taken once per round of a loop driven by the file's content (`%s`) and is released only when %s returns: a file "
+                         "larger than the stack crashes the read" % (render(content.child("cond"))[:60], f.name), key="alloca-in-content-loop:%s" % f.name)
+            else:
+                ctx.ok("B6", inst, c.where, "the loop runs once per configured directory layer, not per line or entry")
+    if n == 0:
+        ctx.ok("B6", "no stack allocation inside a loop in lib/", "", "")
+
+
 def run(prog, ctx):
     la, ls, lf = judge(prog, ctx, False)
     ua, us, uf = judge(prog, ctx, True)
+    b4_bounded_compares(prog, ctx)
+    b5_length_tests(prog, ctx)
+    b6_stack_copies(prog, ctx)
     ctx.floor("C14 fixed char arrays in lib/", len(la), 6)
     ctx.floor("C14 fixed char arrays in util/", len(ua), 10)
     ctx.floor("C14 write sites", len(ls) + len(us), 25)
